@@ -14,6 +14,8 @@ import TgModel.Lemmas.IdeSemTree
 import TgModel.Lemmas.IdeSemRunFast
 import TgModel.Lemmas.IdeSemTyped
 import TgModel.Lemmas.QSortMem
+import TgModel.Lemmas.Sem10Visits
+import TgModel.Props.C03
 
 namespace Tg.C19
 open Tg Tg.Ide Tg.Ide.Handlers
@@ -1231,5 +1233,240 @@ example : ∃ c', (Index.indexFieldDef (Index.mkRec 1) fdTree).run fdCtx = .ok (
     symbolSignature c'.symbolMap (.recordField 0) = "int A::x" := by
   refine ⟨_, rfl, ?_⟩
   decide +kernel
+
+
+/-! ### … without the hypothesis on later states: declarations in the root file of an indexed workspace
+
+The indexer visits (`VisitsA`, `Lemmas/Sem10Visits.lean`) every body item of a `class` / `def` statement of
+the root file and every template parameter declaration of a `class` statement, and everything it does
+afterwards only appends to the typed arenas (`mkRec_typRel`): the `ArenaKeep` hypothesis of the three
+theorems above holds for the final symbol map `res.symbolMap`. -/
+
+/-- **hover shows the declared type of a field, on the final index**: for a field definition `item` in the
+body of a `class` / `def` statement `s` of the root file (`InClass` / `InDef`: static conditions on the
+tree), the indexer runs `indexFieldDef` on it, in the root file, and the conclusion of
+`hover_signature_of_declared_type` holds for the symbol map of the result -/
+theorem hover_signature_of_declared_type_root {ws : Workspace} {res : Index.IndexResult}
+    (hr : Index.index ws = .ok res) (sf sl : PTree) (hsf : Ast.sourceFileCast (ws.tree ws.root) = some sf)
+    (hsl : Ast.sourceFileStatementList sf = some sl) (spre : List PTree) (s : PTree) (spost : List PTree)
+    (hsplit : Ast.statementListStatements sl = spre ++ s :: spost) (item : PTree)
+    (hu : InClass s item ∨ InDef s item) (hk : item.kind = .FieldDef) :
+    ∃ fuel c c', c.fileTrace = [ws.root] ∧
+      (Index.indexFieldDef (Index.mkRec (fuel + 1)) item).run c = .ok ((), c') ∧
+      ((Ast.fieldDefName item = none ∨ Ast.fieldDefType item = none ∨
+        (∃ nameNode c1, Ast.fieldDefName item = some nameNode ∧ (utilsIdentifier nameNode).run c = .ok (none, c1)) ∨
+        (∃ typNode c1 c2, Ast.fieldDefType item = some typNode ∧
+          (Index.indexType (Index.mkRec fuel) typNode).run c1 = .ok (none, c2))) ∨
+      ∃ nameNode name loc typNode ty c1 c2 id,
+        Ast.fieldDefName item = some nameNode ∧ (utilsIdentifier nameNode).run c = .ok (some (name, loc), c1) ∧
+        Ast.fieldDefType item = some typNode ∧
+        (Index.indexType (Index.mkRec fuel) typNode).run c1 = .ok (some ty, c2) ∧
+        id = c2.symbolMap.recordFieldList.size ∧
+        symbolDefineLoc res.symbolMap (.recordField id) = loc ∧
+        symbolSignature res.symbolMap (.recordField id) =
+          ty.toStr ++ " " ++ (res.symbolMap.record (res.symbolMap.recordField id).parent).name ++ "::" ++ name) := by
+  obtain ⟨j, c, b, c', cfin, hft, _, hrun, hlater, hfin⟩ :=
+    index_visitsA (A := TypRel) (site := fun j => Index.indexFieldDef (Index.mkRec (j + 1)) item) hr sf sl hsf hsl
+      (fun j => statementList_visitsA j sl spre s spost hsplit
+        (statement_item_visitsA j s item hu (by
+          unfold Index.indexBodyItem
+          simp only [hk]
+          exact VisitsA.self _)))
+  cases b
+  have hl : ArenaKeep c'.symbolMap res.symbolMap := by rw [← hfin]; exact hlater
+  exact ⟨j, c, c', hft, hrun, hover_signature_of_declared_type j item c c' hrun res.symbolMap hl⟩
+
+/-- the same for a template parameter declaration `d` of a `class` statement of the root file -/
+theorem hover_signature_of_declared_type_templateArg_root {ws : Workspace} {res : Index.IndexResult}
+    (hr : Index.index ws = .ok res) (sf sl : PTree) (hsf : Ast.sourceFileCast (ws.tree ws.root) = some sf)
+    (hsl : Ast.sourceFileStatementList sf = some sl) (spre : List PTree) (s : PTree) (spost : List PTree)
+    (hsplit : Ast.statementListStatements sl = spre ++ s :: spost) (d : PTree) (hu : ParamOfClass s d) :
+    ∃ fuel c c', c.fileTrace = [ws.root] ∧
+      (Index.indexTemplateArgDecl (Index.mkRec (fuel + 1)) d).run c = .ok ((), c') ∧
+      ((Ast.templateArgDeclName d = none ∨ Ast.templateArgDeclType d = none ∨
+        (∃ nameNode c1, Ast.templateArgDeclName d = some nameNode ∧ (utilsIdentifier nameNode).run c = .ok (none, c1)) ∨
+        (∃ typNode c1 c2, Ast.templateArgDeclType d = some typNode ∧
+          (Index.indexType (Index.mkRec fuel) typNode).run c1 = .ok (none, c2))) ∨
+      ∃ nameNode name loc typNode ty c1 c2 id,
+        Ast.templateArgDeclName d = some nameNode ∧ (utilsIdentifier nameNode).run c = .ok (some (name, loc), c1) ∧
+        Ast.templateArgDeclType d = some typNode ∧
+        (Index.indexType (Index.mkRec fuel) typNode).run c1 = .ok (some ty, c2) ∧
+        id = c2.symbolMap.templateArgList.size ∧
+        symbolDefineLoc res.symbolMap (.templateArgument id) = loc ∧
+        symbolSignature res.symbolMap (.templateArgument id) = ty.toStr ++ " " ++ name) := by
+  obtain ⟨j, c, b, c', cfin, hft, _, hrun, hlater, hfin⟩ :=
+    index_visitsA (A := TypRel) (site := fun j => Index.indexTemplateArgDecl (Index.mkRec (j + 1)) d) hr sf sl hsf hsl
+      (fun j => statementList_visitsA j sl spre s spost hsplit (statement_param_visitsA j s d hu))
+  cases b
+  have hl : ArenaKeep c'.symbolMap res.symbolMap := by rw [← hfin]; exact hlater
+  exact ⟨j, c, c', hft, hrun, hover_signature_of_declared_type_templateArg j d c c' hrun res.symbolMap hl⟩
+
+/-- the same for a `defvar` in the body of a `class` / `def` statement of the root file -/
+theorem hover_signature_of_declared_type_defvar_root {ws : Workspace} {res : Index.IndexResult}
+    (hr : Index.index ws = .ok res) (sf sl : PTree) (hsf : Ast.sourceFileCast (ws.tree ws.root) = some sf)
+    (hsl : Ast.sourceFileStatementList sf = some sl) (spre : List PTree) (s : PTree) (spost : List PTree)
+    (hsplit : Ast.statementListStatements sl = spre ++ s :: spost) (item : PTree)
+    (hu : InClass s item ∨ InDef s item) (hk : item.kind = .Defvar) :
+    ∃ fuel c c', c.fileTrace = [ws.root] ∧
+      (Index.indexDefvar (Index.mkRec (fuel + 1)) item).run c = .ok ((), c') ∧
+      ((Ast.defvarName item = none ∨ Ast.defvarValue item = none ∨
+        (∃ nameNode c1, Ast.defvarName item = some nameNode ∧ (utilsIdentifier nameNode).run c = .ok (none, c1))) ∨
+      ∃ nameNode name loc value ty c1 c2 id,
+        Ast.defvarName item = some nameNode ∧ (utilsIdentifier nameNode).run c = .ok (some (name, loc), c1) ∧
+        Ast.defvarValue item = some value ∧
+        (Index.indexValue (Index.mkRec fuel) value).run c1 = .ok (ty, c2) ∧
+        id = c2.symbolMap.variableList.size ∧
+        symbolDefineLoc res.symbolMap (.var id) = loc ∧
+        symbolSignature res.symbolMap (.var id) = (ty.getD .unknown).toStr ++ " " ++ name) := by
+  obtain ⟨j, c, b, c', cfin, hft, _, hrun, hlater, hfin⟩ :=
+    index_visitsA (A := TypRel) (site := fun j => Index.indexDefvar (Index.mkRec (j + 1)) item) hr sf sl hsf hsl
+      (fun j => statementList_visitsA j sl spre s spost hsplit
+        (statement_item_visitsA j s item hu (by
+          unfold Index.indexBodyItem
+          simp only [hk]
+          exact VisitsA.self _)))
+  cases b
+  have hl : ArenaKeep c'.symbolMap res.symbolMap := by rw [← hfin]; exact hlater
+  exact ⟨j, c, c', hft, hrun, hover_signature_of_declared_type_defvar j item c c' hrun res.symbolMap hl⟩
+
+
+/-- the conclusion of `hover_signature_of_declared_type` for the field definition `item`, indexed from `c` -/
+def FieldShown (sm : SymMap) (fuel : Nat) (item : PTree) (c : IndexCtx) : Prop :=
+  (Ast.fieldDefName item = none ∨ Ast.fieldDefType item = none ∨
+    (∃ nameNode c1, Ast.fieldDefName item = some nameNode ∧ (utilsIdentifier nameNode).run c = .ok (none, c1)) ∨
+    (∃ typNode c1 c2, Ast.fieldDefType item = some typNode ∧
+      (Index.indexType (Index.mkRec fuel) typNode).run c1 = .ok (none, c2))) ∨
+  ∃ nameNode name loc typNode ty c1 c2 id,
+    Ast.fieldDefName item = some nameNode ∧ (utilsIdentifier nameNode).run c = .ok (some (name, loc), c1) ∧
+    Ast.fieldDefType item = some typNode ∧
+    (Index.indexType (Index.mkRec fuel) typNode).run c1 = .ok (some ty, c2) ∧
+    id = c2.symbolMap.recordFieldList.size ∧
+    symbolDefineLoc sm (.recordField id) = loc ∧
+    symbolSignature sm (.recordField id) =
+      ty.toStr ++ " " ++ (sm.record (sm.recordField id).parent).name ++ "::" ++ name
+
+/-- the conclusion of `hover_signature_of_declared_type_templateArg` -/
+def ParamShown (sm : SymMap) (fuel : Nat) (d : PTree) (c : IndexCtx) : Prop :=
+  (Ast.templateArgDeclName d = none ∨ Ast.templateArgDeclType d = none ∨
+    (∃ nameNode c1, Ast.templateArgDeclName d = some nameNode ∧ (utilsIdentifier nameNode).run c = .ok (none, c1)) ∨
+    (∃ typNode c1 c2, Ast.templateArgDeclType d = some typNode ∧
+      (Index.indexType (Index.mkRec fuel) typNode).run c1 = .ok (none, c2))) ∨
+  ∃ nameNode name loc typNode ty c1 c2 id,
+    Ast.templateArgDeclName d = some nameNode ∧ (utilsIdentifier nameNode).run c = .ok (some (name, loc), c1) ∧
+    Ast.templateArgDeclType d = some typNode ∧
+    (Index.indexType (Index.mkRec fuel) typNode).run c1 = .ok (some ty, c2) ∧
+    id = c2.symbolMap.templateArgList.size ∧
+    symbolDefineLoc sm (.templateArgument id) = loc ∧
+    symbolSignature sm (.templateArgument id) = ty.toStr ++ " " ++ name
+
+/-- the conclusion of `hover_signature_of_declared_type_defvar` -/
+def DefvarShown (sm : SymMap) (fuel : Nat) (item : PTree) (c : IndexCtx) : Prop :=
+  (Ast.defvarName item = none ∨ Ast.defvarValue item = none ∨
+    (∃ nameNode c1, Ast.defvarName item = some nameNode ∧ (utilsIdentifier nameNode).run c = .ok (none, c1))) ∨
+  ∃ nameNode name loc value ty c1 c2 id,
+    Ast.defvarName item = some nameNode ∧ (utilsIdentifier nameNode).run c = .ok (some (name, loc), c1) ∧
+    Ast.defvarValue item = some value ∧
+    (Index.indexValue (Index.mkRec fuel) value).run c1 = .ok (ty, c2) ∧
+    id = c2.symbolMap.variableList.size ∧
+    symbolDefineLoc sm (.var id) = loc ∧
+    symbolSignature sm (.var id) = (ty.getD .unknown).toStr ++ " " ++ name
+
+/-- **built workspaces**: the workspace is indexed (C03), and for the `j`-th body item of the `i`-th statement
+of the root file - a `class`, or a `def` that is anonymous or named by one identifier (`stmtItemAt`:
+executable) - that is a field definition, hover shows the declared type on the final index -/
+theorem hover_signature_of_declared_type_built {vfs : List (String × String)} {rootPath : String}
+    {includeDir : Option String} {ws : Workspace} (hb : buildWorkspace vfs rootPath includeDir = .ok ws)
+    (i j : Nat) (item : PTree) (hitem : (rootStatement ws i).bind (stmtItemAt · j) = some item)
+    (hk : item.kind = .FieldDef) :
+    ∃ res, Index.index ws = .ok res ∧ ∃ fuel c c', c.fileTrace = [ws.root] ∧
+      (Index.indexFieldDef (Index.mkRec (fuel + 1)) item).run c = .ok ((), c') ∧
+      FieldShown res.symbolMap fuel item c := by
+  obtain ⟨res, hr⟩ := C03.index_never_panics _ _ _ ws hb
+  cases hs : rootStatement ws i with
+  | none => rw [hs] at hitem; cases hitem
+  | some s =>
+    rw [hs] at hitem
+    obtain ⟨sf, sl, spre, spost, hsf, hsl, hsplit⟩ := rootStatement_sound hs
+    exact ⟨res, hr, hover_signature_of_declared_type_root hr sf sl hsf hsl spre s spost hsplit item
+      (stmtItemAt_sound hitem) hk⟩
+
+theorem hover_signature_of_declared_type_templateArg_built {vfs : List (String × String)} {rootPath : String}
+    {includeDir : Option String} {ws : Workspace} (hb : buildWorkspace vfs rootPath includeDir = .ok ws)
+    (i j : Nat) (d : PTree) (hd : (rootStatement ws i).bind (stmtParamAt · j) = some d) :
+    ∃ res, Index.index ws = .ok res ∧ ∃ fuel c c', c.fileTrace = [ws.root] ∧
+      (Index.indexTemplateArgDecl (Index.mkRec (fuel + 1)) d).run c = .ok ((), c') ∧
+      ParamShown res.symbolMap fuel d c := by
+  obtain ⟨res, hr⟩ := C03.index_never_panics _ _ _ ws hb
+  cases hs : rootStatement ws i with
+  | none => rw [hs] at hd; cases hd
+  | some s =>
+    rw [hs] at hd
+    obtain ⟨sf, sl, spre, spost, hsf, hsl, hsplit⟩ := rootStatement_sound hs
+    exact ⟨res, hr, hover_signature_of_declared_type_templateArg_root hr sf sl hsf hsl spre s spost hsplit d
+      (stmtParamAt_sound hd)⟩
+
+theorem hover_signature_of_declared_type_defvar_built {vfs : List (String × String)} {rootPath : String}
+    {includeDir : Option String} {ws : Workspace} (hb : buildWorkspace vfs rootPath includeDir = .ok ws)
+    (i j : Nat) (item : PTree) (hitem : (rootStatement ws i).bind (stmtItemAt · j) = some item)
+    (hk : item.kind = .Defvar) :
+    ∃ res, Index.index ws = .ok res ∧ ∃ fuel c c', c.fileTrace = [ws.root] ∧
+      (Index.indexDefvar (Index.mkRec (fuel + 1)) item).run c = .ok ((), c') ∧
+      DefvarShown res.symbolMap fuel item c := by
+  obtain ⟨res, hr⟩ := C03.index_never_panics _ _ _ ws hb
+  cases hs : rootStatement ws i with
+  | none => rw [hs] at hitem; cases hitem
+  | some s =>
+    rw [hs] at hitem
+    obtain ⟨sf, sl, spre, spost, hsf, hsl, hsplit⟩ := rootStatement_sound hs
+    exact ⟨res, hr, hover_signature_of_declared_type_defvar_root hr sf sl hsf hsl spre s spost hsplit item
+      (stmtItemAt_sound hitem) hk⟩
+
+/-- `class A<int p> { int x; defvar v = 1; }` -/
+def hvSource : String := "class A<int p> { int x; defvar v = 1; }\n"
+
+/-- the static hypotheses of the three `_built` theorems hold of the program (checked by evaluation): item 0 of
+statement 0 is a field definition, item 1 a `defvar`, and parameter 0 exists -/
+theorem hvSource_checked : (match buildWorkspace [("/w/a.td", hvSource)] "/w/a.td" none with
+    | .ok ws =>
+      (match (rootStatement ws 0).bind (stmtItemAt · 0) with
+        | some item => item.kind == .FieldDef
+        | none => false) &&
+      (match (rootStatement ws 0).bind (stmtItemAt · 1) with
+        | some item => item.kind == .Defvar
+        | none => false) &&
+      ((rootStatement ws 0).bind (stmtParamAt · 0)).isSome
+    | .error _ => false) = true := by decide +kernel
+
+/-- non-vacuity: the three theorems apply to the built workspace -/
+example : ∃ ws res, buildWorkspace [("/w/a.td", hvSource)] "/w/a.td" none = .ok ws ∧ Index.index ws = .ok res ∧
+    (∃ item fuel c c', (Index.indexFieldDef (Index.mkRec (fuel + 1)) item).run c = .ok ((), c') ∧
+      FieldShown res.symbolMap fuel item c) ∧
+    (∃ d fuel c c', (Index.indexTemplateArgDecl (Index.mkRec (fuel + 1)) d).run c = .ok ((), c') ∧
+      ParamShown res.symbolMap fuel d c) ∧
+    (∃ item fuel c c', (Index.indexDefvar (Index.mkRec (fuel + 1)) item).run c = .ok ((), c') ∧
+      DefvarShown res.symbolMap fuel item c) := by
+  have hk := hvSource_checked
+  cases hb : buildWorkspace [("/w/a.td", hvSource)] "/w/a.td" none with
+  | error e => rw [hb] at hk; cases hk
+  | ok ws =>
+    rw [hb] at hk
+    simp only [Bool.and_eq_true] at hk
+    obtain ⟨⟨h1, h2⟩, h3⟩ := hk
+    cases hi0 : (rootStatement ws 0).bind (stmtItemAt · 0) with
+    | none => rw [hi0] at h1; cases h1
+    | some item0 =>
+    cases hi1 : (rootStatement ws 0).bind (stmtItemAt · 1) with
+    | none => rw [hi1] at h2; cases h2
+    | some item1 =>
+    obtain ⟨d, hd⟩ := Option.isSome_iff_exists.1 h3
+    rw [hi0] at h1
+    rw [hi1] at h2
+    obtain ⟨res, hr, f0, c0, c0', _, r0, s0⟩ := hover_signature_of_declared_type_built hb 0 0 item0 hi0 (by simpa using h1)
+    obtain ⟨res1, hr1, f1, c1, c1', _, r1, s1⟩ := hover_signature_of_declared_type_templateArg_built hb 0 0 d hd
+    obtain ⟨res2, hr2, f2, c2, c2', _, r2, s2⟩ := hover_signature_of_declared_type_defvar_built hb 0 1 item1 hi1 (by simpa using h2)
+    have e1 : res1 = res := by rw [hr] at hr1; cases hr1; rfl
+    have e2 : res2 = res := by rw [hr] at hr2; cases hr2; rfl
+    subst e1 e2
+    exact ⟨ws, _, rfl, hr, ⟨item0, f0, c0, c0', r0, s0⟩, ⟨d, f1, c1, c1', r1, s1⟩, ⟨item1, f2, c2, c2', r2, s2⟩⟩
 
 end Tg.C19
